@@ -420,6 +420,7 @@ def make_resource(runner):
             self.value = 0
             self.c08_rendered = set()
             self.c08_cache = {}
+            self.c08_notifying = set()
 
         async def add_observation(self, request, serverobservation):
             sv = runner.cur_sv()
@@ -470,7 +471,13 @@ def make_resource(runner):
                     return self.c08_cache.setdefault(
                         (ver, code), aiocoap.Message(code=aiocoap.Code(code), payload=str(ver).encode()))
                 self.c08_rendered.add(sv)
-            return aiocoap.Message(code=aiocoap.Code(code), payload=str(ver).encode())
+            msg = aiocoap.Message(code=aiocoap.Code(code), payload=str(ver).encode())
+            if runner.script.get("uncopyable_render") and sv in self.c08_notifying:
+                # a rendering that can be serialised but not deep-copied (an option value handed over as a
+                # memoryview): a legitimate response, also as a notification
+                msg.opt.etag = memoryview(b"c08")
+            self.c08_notifying.add(sv)
+            return msg
 
     return Res()
 
